@@ -1941,7 +1941,9 @@ func reportSchedViolation(fv *FoundViolation, race bool, mr, mp *Merged, t0 time
 	childPatienceMS, shrinkBudget = 0, 400
 	r1 := runOnePre(bin, &small, *fTmp, atomic, pre)
 	r2 := r1
-	if clause == "C14.deadlock" {
+	if clause == "C14.deadlock" || len(rt.SyncSites) > 0 {
+		// (the same holds for a library that uses synchronisation primitives of its own, some of
+		// which - sync.Pool - behave as the runtime pleases: see verifyFresh)
 		// Once tasks block on primitives the simulator does not own, the order in which they are
 		// released is the runtime's, not the plan's: a deadlock need not form on every execution of
 		// the same plan. One that forms is a fact all the same (calls that never return cannot be
@@ -2126,8 +2128,16 @@ func replaySched(rep *Replay, kf *KnownFindings) int {
 	}
 	atomic := rep.Witness["atomic"] == "true"
 	r := runOnePre(bin, &rep.Plan, *fTmp, atomic, rep.Prelude)
-	for i := 0; i < 3 && rep.Clause == "C14.deadlock" && r.Res.Clause != rep.Clause; i++ {
-		r = runOnePre(bin, &rep.Plan, *fTmp, atomic, rep.Prelude) // see reportSchedViolation: a deadlock need not form every time
+	reproduced := func(r oneResult) bool {
+		if rep.Clause == "C14.race" {
+			return r.Race && r.RaceSig == rep.Witness["signature"]
+		}
+		return !r.Race && r.Res.Clause == rep.Clause
+	}
+	for i := 0; i < 3 && (rep.Clause == "C14.deadlock" || len(rt.SyncSites) > 0) && !reproduced(r); i++ {
+		// see reportSchedViolation: where the library blocks on, or pools through, primitives the
+		// simulator does not own, the same plan need not take the same course every time
+		r = runOnePre(bin, &rep.Plan, *fTmp, atomic, rep.Prelude)
 	}
 	for _, l := range schedTrace(&rep.Plan) {
 		fmt.Println("   ", l)
